@@ -24,9 +24,11 @@ import vlib
 from vlib import cz, cbool, clist
 
 AREA = "Sql3VL"
+# primary statements = about the current code (KeepIsNotTrue since /repo 33a2304) or about both variants; the last
+# five are about the previous variant (KeepNotPred) and stay as the record of the fixed finding
 THEOREMS = [("Arc.Sql3VL.Props", t) for t in (
-    "C10_exact", "C10_exact_refuted", "C10_exact_guarded", "C10_safe", "C10_not_keeps_only_false", "C10_count",
-    "C10_dry_run", "C10_rejected_unchanged", "C10_same_count", "C10_same_count_refuted", "C10_same_count_guarded")]
+    "C10_exact", "C10_same_count", "C10_count", "C10_dry_run", "C10_rejected_unchanged", "C10_safe",
+    "C10_not_keeps_only_false", "C10_exact_refuted", "C10_same_count_refuted", "C10_exact_guarded", "C10_same_count_guarded")]
 MODULES = ["Arc.Sql3VL.Props"]
 TIE_NAME = "C10 correspondence (api.DeleteHandler.handleDelete + DuckDB vs Arc.Sql3VL.Model.delete_run / eval)"
 HARNESS = {"internal/api/zz_delete_verif_test.go": "harness/sql3vl/delete_verif_test.go"}
@@ -582,6 +584,11 @@ def run(res, tier, seed):
         "all files of a measurement have the same schema (a file lacking a referenced column makes the single-file rewrite fail and is reported as a failed file; not modelled); local storage backend (the S3/Azure rewrite path runs the same SQL; upload not exercised); standalone mode (no cluster manifest)",
         "Parquet write/read round trip by DuckDB (COPY ... TO, read_parquet) preserves values and, with preserve_insertion_order forced as the code does, row order; checked on every case by reading the files back",
     ]
+    if tier == "thorough":
+        ok, _ = vlib.coqchk_stage(res, MODULES)
+        if not ok:
+            failed.append(("coqchk", "coqchk did not accept the compiled development"))
+
     n = int(os.environ.get("VERIF_N") or (380 if tier == "quick" else 4000))
     t1 = time.time()
     wit = witness_cases()
